@@ -260,4 +260,71 @@ def adTest (sort : List (Option α) → List (Option α)) (prev0 : α) (data : L
 
 end ad
 
+/-! ### p-values: `np.interp` into the Cramer-von Mises table, Marsaglia & Marsaglia's `AD(n, z)` -/
+
+section interp
+variable {α : Type} [Add α] [Sub α] [Mul α] [Div α] [LT α] [DecidableLT α] [LE α] [DecidableLE α]
+
+/-- `np.interp` to the right of the knot `(x0, f0)` (`x0 ≤ x`): linear between consecutive knots,
+the last ordinate beyond the last knot -/
+def interpAux (x : α) : α → α → List α → List α → α
+  | x0, f0, x1 :: xs, f1 :: fs =>
+    if x < x1 then (if x ≤ x0 then f0 else (f1 - f0) / (x1 - x0) * (x - x0) + f0)
+    else interpAux x x1 f1 xs fs
+  | _, f0, _, _ => f0
+
+/-- `np.interp(x, xp, fp)` for increasing `xp`; `none` for empty tables -/
+def interp (x : α) : List α → List α → Option α
+  | x0 :: xs, f0 :: fs => some (if x < x0 then f0 else interpAux x x0 f0 xs fs)
+  | _, _ => none
+
+/-- `np.argmin(np.abs(nsample - CVM_NSAMPLE))`: first position of the closest tabulated sample size -/
+def closestIdx (n : Nat) : List Nat → Option Nat
+  | [] => none
+  | s :: rest =>
+    let d (a : Nat) : Nat := if a < n then n - a else a - n
+    let rec go (best bestd i : Nat) : List Nat → Nat
+      | [] => best
+      | t :: ts => if d t < bestd then go i (d t) (i + 1) ts else go best bestd (i + 1) ts
+    some (go 0 (d s) 1 rest)
+
+end interp
+
+section adp
+variable {α : Type} [Add α] [Sub α] [Mul α] [Div α] [Neg α] [LT α] [DecidableLT α] [LE α] [DecidableLE α]
+  [OfNat α 0] [OfNat α 1] [OfNat α 2] [NatCast α] [OfScientific α] [Transc α]
+
+/-- `adinf(z)`: the asymptotic distribution function of the Anderson-Darling statistic (two fits) -/
+def adinf (z : α) : α :=
+  if z < 2 then
+    Transc.exp (-1.2337141 / z) / Transc.sqrt z
+      * (2.00012 + (0.247105 - (0.0649821 - (0.0347962 - (0.011672 - 0.00168691 * z) * z) * z) * z) * z)
+  else
+    Transc.exp (-Transc.exp (1.0776 - (2.30695 - (0.43424 - (0.082433 - (0.008056 - 0.0003146 * z) * z) * z) * z) * z))
+
+/-- `AD(n, z) = adinf(z) + errfix(n, adinf(z))` -/
+def adProb (n : Nat) (z : α) : α :=
+  let nd : α := (n : α)
+  let x := adinf z
+  if 0.8 < x then
+    x + (-130.2137 + (745.2337 - (1705.091 - (1950.646 - (1116.360 - 255.7844 * x) * x) * x) * x) * x) / nd
+  else
+    let c := 0.01265 + 0.1757 / nd
+    if x < c then
+      let v := x / c
+      let v := Transc.sqrt v * (1 - v) * (((49 : Nat) : α) * v - ((102 : Nat) : α))
+      x + v * (0.0037 / ((n * n : Nat) : α) + 0.00078 / nd + 0.00006) / nd
+    else
+      let v := (x - c) / (0.8 - c)
+      let v := -0.00022633 + (6.54034 - (14.6538 - (14.458 - (8.259 - 1.91864 * v) * v) * v) * v) * v
+      x + v * (0.04213 + 0.01365 / nd) / nd
+
+/-- `pval<0 ? 0 : pval>1 ? 1 : pval` -/
+def clamp01 (p : α) : α := if p < 0 then 0 else if 1 < p then 1 else p
+
+/-- `outputs[1]`: the p-value returned with the statistic `stat = outputs[0]` -/
+def adPvalue (n : Nat) (stat : α) : α := clamp01 (1 - adProb n stat)
+
+end adp
+
 end HydroVerif.C10
